@@ -75,7 +75,7 @@ impl Ctx {
     pub fn known_open(&self, finding_id: &str) -> bool {
         self.known
             .iter()
-            .any(|k| k.status == "known" && k.id == finding_id && (k.property == self.id || k.property == "*"))
+            .any(|k| k.status == "known" && k.id.starts_with(finding_id) && (k.property == self.id || k.property == "*"))
     }
 }
 
